@@ -150,6 +150,11 @@ static void DumpDebugInfo_MAP(void) {
         ChkIO(ErrNum_OpeningFile);
     }
 
+    /* the symbol and section writers below check errno after every write:
+       do not let them see what an earlier file search left behind */
+
+    errno = 0;
+
     Run     = LineInfoRoot;
     ActSeg  = -1;
     ActFile = -1;
@@ -324,6 +329,8 @@ static void DumpDebugInfo_NOICE(void) {
     if (!MAPFile) {
         ChkIO(ErrNum_OpeningFile);
     }
+
+    errno = 0;
 
     fprintf(MAPFile, "CASE %d\n", (CaseSensitive) ? 1 : 0);
 
